@@ -200,7 +200,7 @@ def _run_harness(ctx, tb, env, what):
 
 
 def record(ctx, tb):
-    return _run_harness(ctx, tb, {"VERIF_N": ctx.pick(60, 900), "VERIF_ENUM": ctx.pick(5, 60),
+    return _run_harness(ctx, tb, {"VERIF_N": ctx.pick(30, 800), "VERIF_ENUM": ctx.pick(3, 50),
                                   "VERIF_LEN": ctx.pick(4, 6)}, "random")
 
 
@@ -226,12 +226,14 @@ def directed_histories():
             op("install", rev=1), op("refresh", rev=2), op("revert", rev=1, nb=True), op("refresh", rev=2, fk=k)]})
     # same but through the store (which must be offered rev 2 because it is not blocked)
     hs.append({"id": "d-nb-store", "onClassic": False, "ops": [
-        op("install", rev=1), op("refresh", rev=2), op("revert", rev=0, nb=True), op("refresh", rev=2, store=True, fk=14),
-        op("refresh", rev=2, store=True)]})
+        op("install", rev=1), op("refresh", rev=2), op("revert", rev=0, nb=True), op("candidates", rev=2),
+        op("refresh", rev=2, store=True, fk=14), op("candidates", rev=2), op("refresh", rev=2, store=True)]})
     # blocked revision is not offered by the store, but can be asked for explicitly
     hs.append({"id": "d-blocked", "onClassic": True, "ops": [
         op("install", rev=1), op("refresh", rev=2), op("refresh", rev=3), op("revert", rev=1),
-        op("refresh", rev=3, store=True), op("refresh", rev=2, store=True), op("refresh", rev=4, store=True)]})
+        op("candidates", rev=3), op("candidates", rev=2), op("candidates", rev=4), op("candidates", rev=1),
+        op("refresh", rev=3, store=True), op("candidates", rev=2), op("revert", rev=2, nb=True), op("candidates", rev=3),
+        op("revert", rev=1), op("candidates", rev=3), op("candidates", rev=2), op("refresh", rev=4, store=True)]})
     # kernel, boot in-use answers
     k = KERNEL
     hs.append({"id": "d-kernel-1", "onClassic": False, "ops": [
@@ -241,7 +243,7 @@ def directed_histories():
         op("remove", k, rev=0), op("disable", k)]})
     hs.append({"id": "d-kernel-2", "onClassic": False, "ops": [
         op("setretain", val=2), op("install", k, rev=1), op("refresh", k, rev=2), op("setboot", k, rev=1, val=2),
-        op("refresh", k, rev=3), op("refresh", k, rev=4, fk=22), op("refresh", k, rev=4), op("refresh", k, rev=1),
+        op("refresh", k, rev=3), op("refresh", k, rev=4, fk=18), op("refresh", k, rev=4), op("refresh", k, rev=1),
         op("setboot", k, rev=1, val=0), op("refresh", k, rev=5)]})
     # in-use revision after current (left over from a revert): statement clauses conflict, code discards it
     hs.append({"id": "d-kernel-aftercur", "onClassic": False, "ops": [
@@ -264,6 +266,7 @@ def directed_histories():
 # ----------------------------------------------------------------------------------------------- trace validation
 
 _KEEP = ("ev", "case", "op", "ok", "tasks", "idx", "mode", "status", "boot")
+_ENV_EVENTS = ("Request", "SetRetain", "SetConfig", "Inhibit", "SetBoot", "Candidates")
 
 
 def split_per_snap(log):
@@ -386,7 +389,7 @@ def corruption_control(ctx, prop, log):
 def opstr(o):
     k = o["kind"]
     a = []
-    if k in ("install", "refresh", "revert", "remove", "setboot"):
+    if k in ("install", "refresh", "revert", "remove", "setboot", "candidates"):
         a.append(str(o.get("rev", 0)))
     if k in ("setretain", "setconfig", "setboot"):
         a.append(("s" if o.get("str") else "") + str(o.get("val", 0)))
@@ -417,7 +420,7 @@ def history_of_case(log, case, upto_line=None):
             continue
         if upto_line is not None and e.get("_line", 0) > upto_line:
             break
-        if "op" in e and e["ev"] in ("Request", "SetRetain", "SetConfig", "Inhibit", "SetBoot"):
+        if "op" in e and e["ev"] in _ENV_EVENTS:
             ops.append(e["op"])
     return history_string(ops)
 
@@ -433,7 +436,7 @@ def changes_of(log):
             hist[c] = []
             out.append({"type": "reset", "case": c, "post": e["st"], "hist": ""})
             continue
-        if "op" in e and e["ev"] in ("Request", "SetRetain", "SetConfig", "Inhibit", "SetBoot"):
+        if "op" in e and e["ev"] in _ENV_EVENTS:
             hist.setdefault(c, []).append(e["op"])
         h = history_string(hist.get(c, []))
         if e["ev"] == "Request":
@@ -450,7 +453,7 @@ def changes_of(log):
             out.append(cur)
             cur = None
         else:
-            out.append({"type": "env", "case": c, "op": e.get("op"), "post": e["st"], "hist": h, "ev": e["ev"]})
+            out.append({"type": "env", "case": c, "op": e.get("op"), "post": e["st"], "hist": h, "ev": e["ev"], "raw": e})
     return out
 
 
@@ -529,9 +532,18 @@ def direct_check(prop, log):
                            {"case": ch["case"], "history": ch["hist"], "snap": n, "real": rec})
                 elif not bad:
                     tainted.discard((ch["case"], n))
+        if t == "env" and ch["ev"] == "Candidates" and prop == "C13":
+            raw, r = ch["raw"], post["snaps"][snap]
+            if r["seq"] and raw["asked"]:
+                if sorted(raw["storeBlock"] or []) != sorted(r["block"]):
+                    report("C13:refresh-all does not tell the store the blocked revisions", ch["hist"],
+                           "store got block=%s, Block()=%s" % (raw["storeBlock"], r["block"]), ch)
+                want = ch["op"]["rev"] if (ch["op"]["rev"] != r["cur"] and ch["op"]["rev"] not in r["block"]) else 0
+                if raw["offered"] != want:
+                    report("C13:refresh candidate %s although Block()=%s" % ("offered" if raw["offered"] else "withheld", r["block"]),
+                           ch["hist"], "store has rev %d, candidate offered=%d, current=%d block=%s" % (
+                               ch["op"]["rev"], raw["offered"], r["cur"], r["block"]), ch)
         if t == "refused":
-            if prop == "C13" and ch["op"]["kind"] == "revert":
-                pass  # state-unchanged is checked below through pre/post of neighbours by the trace spec; direct: see change branch
             continue
         if t != "change":
             continue
@@ -621,11 +633,6 @@ def direct_check(prop, log):
                     if bad:
                         report("C13:" + ",".join(bad), ch["hist"], "revert %s: before=%s after=%s" % (opstr(op), json.dumps(p), json.dumps(q)),
                                {"case": ch["case"], "history": ch["hist"], "before": p, "after": q})
-            if op["kind"] == "refresh" and op.get("store") and ch.get("storeBlock") is not None:
-                if sorted(ch["storeBlock"]) != sorted(p["block"]):
-                    report("C13:store not told the blocked revisions", ch["hist"], "store got block=%s, Block()=%s" % (ch["storeBlock"], p["block"]), ch)
-                if op["rev"] in p["block"]:
-                    report("C13:store refresh to a blocked revision accepted", ch["hist"], "refresh to blocked %d" % op["rev"], ch)
     # refused reverts: state must be unchanged and the refusal justified
     if prop == "C13":
         prev = None
@@ -703,19 +710,17 @@ def run(ctx, prop):
     rlog, stats = record(ctx, tb)
     ctx.log("driver: %d events, %d changes, %d faults in %.0fs" % (stats["events"], stats["changes"], stats["faults"], stats["wall"]))
 
-    ncases = 0
-    for what, log in (("directed", dlog), ("random", rlog)):
-        n, vs = validate(ctx, prop, log, what)
-        ncases += n
-        violations += vs
-        violations += direct_check(prop, log)
+    alllog = dlog + rlog
+    ncases, vs = validate(ctx, prop, alllog, "all")
+    violations += vs
+    violations += direct_check(prop, alllog)
     control = corruption_control(ctx, prop, rlog)
 
-    counts = _relevant_counts(prop, rlog + dlog)
+    counts = _relevant_counts(prop, alllog)
     what, least = VACUITY[prop]
     if counts[what] < least:
         raise InfraError("vacuity guard: only %d %s in the real executions (need %d)" % (counts[what], what, least))
-    distinct = _distinct_real_states(rlog + dlog)
+    distinct = _distinct_real_states(alllog)
     if distinct < 30:
         raise InfraError("vacuity guard: only %d distinct abstract states reached by real executions" % distinct)
 
